@@ -4,4 +4,4 @@ REPO=${1:-${VERIF_REPO:-/repo}}
 cd "$(dirname "$0")"
 sed "s#@REPO@#$REPO#g" Cargo.toml.in > Cargo.toml
 cp "$REPO/Cargo.lock" Cargo.lock
-RUSTFLAGS="--cfg agdb_verif" CARGO_NET_OFFLINE=true cargo build --offline --target-dir ${2:-/verif/.target/crash} 2>&1 | grep -E "^error|^warning: unused|-->|Finished|cannot|expected|found" | head -80
+RUSTFLAGS="--cfg agdb_verif -Awarnings" CARGO_NET_OFFLINE=true cargo build --offline --target-dir ${2:-/verif/.target/crash} 2>&1 | grep -E "^error|^warning: unused|-->|Finished|cannot|expected|found" | head -80
